@@ -104,6 +104,8 @@ func (t *poll) Run(ctx execution.ExecutionContext, produce execution.ProduceFn, 
 
 	var lastNow time.Time
 	var lastValues [][]octosql.Value
+	// The source may retract records itself, each emitted record is undone with the opposite flag in the next round.
+	var lastRetractions []bool
 
 	for {
 		now := time.Now()
@@ -112,7 +114,7 @@ func (t *poll) Run(ctx execution.ExecutionContext, produce execution.ProduceFn, 
 			for i := range lastValues {
 				if err := produce(
 					execution.ProduceFromExecutionContext(ctx),
-					execution.NewRecord(lastValues[i], true, lastNow),
+					execution.NewRecord(lastValues[i], !lastRetractions[i], lastNow),
 				); err != nil {
 					return fmt.Errorf("couldn't produce record: %w", err)
 				}
@@ -121,6 +123,7 @@ func (t *poll) Run(ctx execution.ExecutionContext, produce execution.ProduceFn, 
 
 		lastNow = now
 		lastValues = nil
+		lastRetractions = nil
 
 		if err := t.source.Run(ctx, func(ctx execution.ProduceContext, record execution.Record) error {
 			values := make([]octosql.Value, len(record.Values)+1)
@@ -129,8 +132,9 @@ func (t *poll) Run(ctx execution.ExecutionContext, produce execution.ProduceFn, 
 
 			lastValues = append(lastValues, make([]octosql.Value, len(values)))
 			copy(lastValues[len(lastValues)-1], values)
+			lastRetractions = append(lastRetractions, record.Retraction)
 
-			if err := produce(ctx, execution.NewRecord(values, false, now)); err != nil {
+			if err := produce(ctx, execution.NewRecord(values, record.Retraction, now)); err != nil {
 				return fmt.Errorf("couldn't produce record: %w", err)
 			}
 
